@@ -3,6 +3,7 @@
 From Coq Require Import List Arith Bool.
 Import ListNotations.
 From AM Require Import Model.Health Proofs.HealthLemmas.
+From AM Require Gen.SyncMapLocks Proofs.SyncMapLemmas.
 
 (* For every sequence of registrations and ready-marks, at every point
    (ops is any prefix): the answer is 200/ok exactly when every registered name's
@@ -53,3 +54,18 @@ Proof. reflexivity. Qed.
 Example C18_example_ready :
   st_code (status_of (hrun [HAdd 1; HAdd 2; HReady 1; HReady 2; HAdd 1; HReady 1])) = 200.
 Proof. reflexivity. Qed.
+
+(* GENERATED from internal/common/genericsyncmap.go and every call site in the module: each method of
+   the shared map is one critical section on the map's single mutex (Lock; defer Unlock; nothing else
+   touches the mutex), except the ones named ...Unsafe, and every call of those happens inside a
+   locked callback (Iterate / WithLockedValueDo) of the same map or inside a locked method.  This is
+   the "one map call = one atomic block" granularity the model of Health uses. *)
+Theorem C18_syncmap_methods_atomic : Gen.SyncMapLocks.syncmap_single_mutex = true /\
+  forall m b, In (m, b) Gen.SyncMapLocks.syncmap_api -> b = true \/ Gen.SyncMapLocks.ends_with_unsafe m = true.
+Proof. exact Proofs.SyncMapLemmas.syncmap_methods_atomic. Qed.
+Print Assumptions C18_syncmap_methods_atomic.
+
+Theorem C18_syncmap_unsafe_calls_hold_lock : forall site m b,
+  In (site, m, b) Gen.SyncMapLocks.syncmap_unsafe_calls -> b = true.
+Proof. exact Proofs.SyncMapLemmas.syncmap_unsafe_calls_hold_lock. Qed.
+Print Assumptions C18_syncmap_unsafe_calls_hold_lock.
